@@ -22,7 +22,9 @@ def ObjOK (n : Nat) : Obj → Prop
   | .arr ms => MemOK n ms
   | .map es => EntOK n es
 
-def StoreOK (s : Store) : Prop := ∀ (a : Nat) (o : Obj), s[a]? = some o → ObjOK s.length o
+/-- **well-founded store**: every object mentions only addresses *older than itself* (objects are
+created after the values they contain and never change) — hence no cycles, and references exist -/
+def StoreOK (s : Store) : Prop := ∀ (a : Nat) (o : Obj), s[a]? = some o → ObjOK a o
 
 /-- closed state: objects and variables mention only existing addresses -/
 def StOK (st : St) : Prop := StoreOK st.store ∧ ∀ v ∈ st.env, SeqOK st.store.length v
@@ -39,6 +41,13 @@ theorem ObjOK_mono {n m : Nat} (h : n ≤ m) {o : Obj} (ho : ObjOK n o) : ObjOK 
   cases o with
   | arr ms => exact fun x hx => SeqOK_mono h (ho x hx)
   | map es => exact fun x hx => SeqOK_mono h (ho x hx)
+
+theorem StoreOK_weak {s : Store} (hs : StoreOK s) (a : Nat) (o : Obj) (h : s[a]? = some o) : ObjOK s.length o := by
+  have hlt : a < s.length := by
+    by_cases hl : a < s.length
+    · exact hl
+    · rw [List.getElem?_eq_none (by omega)] at h; cases h
+  exact ObjOK_mono (Nat.le_of_lt hlt) (hs a o h)
 
 theorem SeqOK_nil (n : Nat) : SeqOK n [] := fun _ h => by simp at h
 theorem SeqOK_append {n : Nat} {a b : Seq} (ha : SeqOK n a) (hb : SeqOK n b) : SeqOK n (a ++ b) :=
@@ -72,15 +81,15 @@ theorem StoreOK_alloc {s : Store} (hs : StoreOK s) {o : Obj} (ho : ObjOK s.lengt
     StoreOK (alloc s o).1 ∧ SeqOK (alloc s o).1.length (alloc s o).2 := by
   constructor
   · intro a o' ha
-    simp only [alloc] at ha ⊢
-    have hlen : (s ++ [o]).length = s.length + 1 := by simp
-    rw [hlen]
+    simp only [alloc] at ha
     by_cases hlt : a < s.length
     · rw [List.getElem?_append_left hlt] at ha
-      exact ObjOK_mono (Nat.le_succ _) (hs a o' ha)
+      exact hs a o' ha
     · rw [List.getElem?_append_right (by omega)] at ha
       by_cases h0 : a - s.length = 0
-      · rw [h0] at ha; simp at ha; subst ha; exact ObjOK_mono (Nat.le_succ _) ho
+      · rw [h0] at ha; simp at ha; subst ha
+        have : a = s.length := by omega
+        rw [this]; exact ho
       · have : ([o] : List Obj)[a - s.length]? = none := by
           apply List.getElem?_eq_none; simp; omega
         rw [this] at ha; cases ha
@@ -92,7 +101,7 @@ theorem StoreOK_alloc {s : Store} (hs : StoreOK s) {o : Obj} (ho : ObjOK s.lengt
 theorem asMap_EntOK {s : Store} (hs : StoreOK s) {v : Seq} {es : Entries Seq} (h : asMap s v = .ok es) :
     EntOK s.length es := by
   obtain ⟨a, ha⟩ := asMap_ok h
-  exact hs a _ ha
+  exact StoreOK_weak hs a _ ha
 
 theorem asArr_ok {s : Store} {v : Seq} {r : Nat × List Seq} (h : asArr s v = .ok r) :
     s[r.1]? = some (Obj.arr r.2) := by
@@ -106,7 +115,7 @@ theorem asArr_ok {s : Store} {v : Seq} {r : Nat × List Seq} (h : asArr s v = .o
   · cases h
 
 theorem asArr_MemOK {s : Store} (hs : StoreOK s) {v : Seq} {r : Nat × List Seq} (h : asArr s v = .ok r) :
-    MemOK s.length r.2 := hs r.1 _ (asArr_ok h)
+    MemOK s.length r.2 := StoreOK_weak hs r.1 _ (asArr_ok h)
 
 
 theorem flattenItems_ok {s : Store} (hs : StoreOK s) (fuel : Nat) (v : Seq) (hv : SeqOK s.length v) :
@@ -126,7 +135,7 @@ theorem flattenItems_ok {s : Store} (hs : StoreOK s) (fuel : Nat) (v : Seq) (hv 
       | some o =>
         rw [hsa] at hix
         cases o with
-        | arr ms => exact ih ms.flatten (SeqOK_flatten (hs a _ hsa)) it hix
+        | arr ms => exact ih ms.flatten (SeqOK_flatten (StoreOK_weak hs a _ hsa)) it hix
         | map es => simp at hix; subst hix; exact hv _ hx
 
 theorem findItems_ok (eq : Key → Key → Bool) {s : Store} (hs : StoreOK s) (key : Key) (fuel : Nat) (v : Seq) :
@@ -153,7 +162,7 @@ theorem findItems_ok (eq : Key → Key → Bool) {s : Store} (hs : StoreOK s) (k
           obtain ⟨e, he, hme⟩ := List.mem_flatMap.1 hmx
           rcases List.mem_append.1 hme with h1 | h1
           · split at h1
-            · simp at h1; subst h1; exact hs a _ hsa e he
+            · simp at h1; subst h1; exact StoreOK_weak hs a _ hsa e he
             · simp at h1
           · exact ih e.2 m h1
 
@@ -185,7 +194,7 @@ theorem lookupItem_ok {d : Dialect} (hd : Pres d) {s : Store} (hs : StoreOK s) (
       rw [hsa] at h
       cases o with
       | map es =>
-        have hes : EntOK s.length es := hs a _ hsa
+        have hes : EntOK s.length es := StoreOK_weak hs a _ hsa
         cases ks with
         | none =>
           simp only at h; injection h with h; subst h
@@ -198,7 +207,7 @@ theorem lookupItem_ok {d : Dialect} (hd : Pres d) {s : Store} (hs : StoreOK s) (
           obtain ⟨k, _, hxk⟩ := List.mem_flatMap.1 hx
           exact hd.mapGet _ es k hes x hxk
       | arr ms =>
-        have hms : MemOK s.length ms := hs a _ hsa
+        have hms : MemOK s.length ms := StoreOK_weak hs a _ hsa
         cases ks with
         | none => simp only at h; injection h with h; subst h; exact SeqOK_flatten hms
         | some l =>
@@ -734,8 +743,7 @@ theorem Pres_py (alias : Bool) : Pres (pyDialect alias) where
   mapCtor := fun n l es h hl => mapCtor_EntOK h hl
   mapPut := by
     intro n es k v es' h hes hv
-    refine mapCtor_EntOK h (dictSet_ok _ ?_ hv)
-    exact dictOfList_ok [] _ (fun e he => by simp at he) (EntOK_filter _ hes)
+    exact mapCtor_EntOK h (EntOK_append (EntOK_filter _ hes) (EntOK_single hv))
   mapRemove := fun n es ks es' h hes => mapCtor_EntOK h (EntOK_filter _ hes)
   mapGet := fun n es k hes => mapGet_ok hes k
   mapMerge := by
@@ -789,7 +797,7 @@ theorem StOK_empty : StOK ⟨[], []⟩ := ⟨fun a o h => by simp at h, fun v hv
 
 theorem Closed_of_StoreOK {s : Store} (h : StoreOK s) : Closed s := by
   intro a o hao r hr
-  have ho := h a o hao
+  have ho := StoreOK_weak h a o hao
   cases o with
   | arr ms =>
     simp only [objRefs] at hr
